@@ -901,11 +901,13 @@ def _schedule(prop, tier, seed):
         return cases, mk
     if prop == "C09":
         fams = [("suffix3", ["abc", "bc", "c"]), ("suffix4", ["xabc", "abc", "c"]), ("basic", ["abc", "bc", "c", "ab"]),
-                ("inherit", ["abcd", "bc"]), ("empty", ["ab", "", "b"]), ("dup", ["ab", "ab", "b"])]
+                ("inherit", ["abcd", "bc"]), ("inherit3", ["abc", "b"]), ("empty", ["ab", "", "b"]), ("dup", ["ab", "ab", "b"])]
         cases = []
         for mkk in ("std", "lf", "ll"):
             for (nm, pats) in fams:
                 if quick and mkk == "ll" and nm not in ("suffix3", "empty"):
+                    continue
+                if quick and mkk != "std" and nm == "inherit3":
                     continue
                 cases.append(Case("c09%s_%s" % (mkk, nm), pats, mk=mkk, sk="both"))
         cases.append(Case("c09std_suffix3_an", ["abc", "bc", "c"], mk="std", sk="an"))
@@ -1125,13 +1127,18 @@ def _schedule(prop, tier, seed):
         fams = [("s1", ["abc", "ab"], False), ("s2", ["zab", "zcd", "qef"], False), ("s3", ["xa", "xb", "yc", "zd"], False),
                 ("r1a", ["abc", "b"], False), ("r1b", ["abcq", "cdq", "efq", "ghq"], False), ("r2", ["az", "bz", "cq"], False),
                 ("r3", ["ab", "cd", "ef"], False), ("mm", ["foo"], False), ("r2ci", ["abc", "ab"], True),
-                ("s2ci", ["zq", "zj"], True)]
+                ("s2ci", ["zq", "zj"], True),
+                # case-insensitive with exactly three start bytes (a letter counts twice): the packed shortcut of the
+                # prefilter builder must not fire (seeded C05c)
+                ("s3ci", ["foo", "1bar"], True)]
         cases = []
         for (nm, pats, ci) in fams:
             for mkk in ("std", "lf"):
                 if nm in ("s3", "r3") and mkk == "lf":
                     continue  # leftmost selects the packed prefilter for these (decided with C06)
                 if quick and mkk == "lf" and nm in ("s2", "r1a", "s2ci"):
+                    continue
+                if quick and mkk == "std" and nm in ("s3ci",):
                     continue
                 cases.append(Case("c05%s_%s" % (mkk, nm), pats, mk=mkk, ci=ci, pf=True))
         # packed prefilter (leftmost kinds only): a Candidate::Match is used verbatim
@@ -1222,7 +1229,10 @@ def _schedule(prop, tier, seed):
             cases.append(PackedCase(prop.lower() + "ll_rk_many", many, mk="ll", force="rk"))
         # Teddy searchers: below their minimum length find_in falls back to Rabin-Karp
         cases.append(PackedCase(prop.lower() + "lf_t1_slow", ["a", "bc"], mk="lf", force="teddy128"))
-        tcases = [PackedCase(prop.lower() + "lf_t1", ["a", "bc"], mk="lf", force="teddy128"),
+        # t1: a fingerprint byte with bit 7 set (pshufb zeroes such index lanes: seeded C06d) next to ASCII ones;
+        # t4: 4-byte fingerprints (Slim<V,4>: seeded C06b, C15b)
+        tcases = [PackedCase(prop.lower() + "lf_t1", [b"\xe9", "bc"], mk="lf", force="teddy128"),
+                  PackedCase(prop.lower() + "lf_t4", ["abcd", "bcde"], mk="lf", force="teddy128"),
                   PackedCase(prop.lower() + "lf_t2", ["ab", "bcd"], mk="lf", force="teddy128"),
                   PackedCase(prop.lower() + "ll_t2", ["ab", "abc"], mk="ll", force="teddy128")]
         if not quick:
@@ -1239,8 +1249,14 @@ def _schedule(prop, tier, seed):
                     length = 16 + m - 1
                     w = int(__import__("os").environ.get("VERIF_TEDDY_W", min(c.maxlen + 2, 4)))
                     wins = [(length + 1, length + 1 - w)] if quick else [(length, 0), (length, length - w), (length + 2, 14), (length + 2, length + 2 - w)]
-                    if quick and c is not tcases[0]:
+                    if quick and c is tcases[1]:
+                        # C15: the first window (loads at the very start of the exact object); C06: the final one
+                        wins = [(length, 0)] if prop == "C15" else [(length + 1, length + 1 - w)]
+                    if quick and c not in tcases[:2]:
                         continue
+                    if not quick and "t4" in c.name:
+                        # two full vectors and the overlapping final window (prev0..2 carried / reset: seeded C06b)
+                        wins += [(34, 30), (35, 15)]
                     for (ln, off) in wins:
                         hs.append(h_pk_teddy(prop, c, facts, ln, off, w, 0x5a))
                     continue
@@ -1351,7 +1367,9 @@ def _schedule(prop, tier, seed):
     if prop == "C17":
         cases = [Case("c17std_basic", ["abc", "bc", "c", "ab"], mk="std"), Case("c17lf_basic", ["abc", "bc", "c", "ab"], mk="lf"),
                  Case("c17lf_un", ["abc", "b"], mk="lf", sk="un"), Case("c17std_an", ["abc", "b"], mk="std", sk="an"),
-                 Case("c17lf_pf", ["abc", "b"], mk="lf", pf=True)]
+                 Case("c17lf_pf", ["abc", "b"], mk="lf", pf=True),
+                 # a rare-byte prefilter (four start bytes, one rare byte)
+                 Case("c17std_pfr", ["aZ", "bZ", "cZ", "dZ"], mk="std", pf=True)]
 
         def mk(facts):
             hs = []
@@ -1369,6 +1387,16 @@ def _schedule(prop, tier, seed):
                 hs.append(h)
                 if not quick and not c.pf:
                     hs.append(h_purity(prop, c, facts, "cnfa", n=3))
+                if c.pf or "basic" in c.name:
+                    n = 5 if quick else 6
+                    hq = Harness("h_puresame_%s_dfa_n%d" % (c.name, n), c, _body(c, "dfa", "t::purity_same::<%s, _, %d>(&a)" % (c.mod, n)),
+                                 base_unwind(c, facts, n),
+                                 [("hay", ("bytes", n)), ("s1", "usize"), ("e1", "usize"), ("s", "usize"), ("e", "usize"), ("a1", "bool"), ("anchored", "bool")],
+                                 dict(template="purity_same", replay_template="find_after", kind="dfa", N=n,
+                                      symbolic=["one haystack", "two spans", "two anchoring modes"],
+                                      note="both searches read the same haystack object: state keyed by the haystack address cannot hide"),
+                                 timeout=1200, functions=F_SEARCH + F_KIND["dfa"] + ["Prefilter::find_in"], stubs=list(STUB_PF) if c.pf else [])
+                    hs.append(hq)
             return hs
         return cases, mk
     if prop == "C19":
@@ -1408,13 +1436,18 @@ def _schedule(prop, tier, seed):
         return cases, mk
     if prop == "C11":
         fams = [("mixed", ["aB", "b@", "Z["]), ("casedup", ["foo", "FOO", "Fo"]), ("nonascii", [b"\xc1a", "A"]),
-                ("bound", ["@a", "`z", "{Z"]), ("suffix", ["aBc", "bC", "c"])]
+                ("bound", ["@a", "`z", "{Z"]), ("suffix", ["aBc", "bC", "c"]),
+                # with folding every letter child of a state is reached by two links: builder steps that assume
+                # "one link per child" (match copying from the start state: seeded C03c; leftmost cut: seeded C01c)
+                ("empty", ["", "aB"]), ("infix", ["abcd", "bce", "bc"])]
         cases = []
         for mkk in ("std", "lf", "ll"):
             for (nm, pats) in fams:
-                if quick and mkk == "ll" and nm not in ("casedup",):
+                if quick and mkk == "ll" and nm not in ("casedup", "infix"):
                     continue
-                if quick and mkk == "lf" and nm in ("bound", "nonascii"):
+                if quick and mkk == "lf" and nm in ("bound", "nonascii", "empty"):
+                    continue
+                if quick and mkk == "std" and nm in ("infix",):
                     continue
                 cases.append(Case("c11%s_%s" % (mkk, nm), pats, mk=mkk, ci=True))
         pf_cases = [Case("c11lf_pf_r2", ["abc", "ab"], mk="lf", ci=True, pf=True),
@@ -1434,6 +1467,10 @@ def _schedule(prop, tier, seed):
                 hs.append(h)
                 if c.mk == "std" and (not quick or "casedup" in c.name or "suffix" in c.name):
                     hs.append(h_ov_step(prop, c, facts, "dfa", n=4 if quick else 5))
+                if c.mk == "std" and "empty" in c.name:
+                    # match lists per state (the folded textbook automaton) and a complete overlapping drain
+                    hs += h_std_struct(prop, c, facts)
+                    hs.append(h_ov_drain(prop, c, facts, "dfa", n=2 if quick else 3, kcap=10, span=not quick))
                 if not quick or "casedup" in c.name:
                     h = h_iter2(prop, c, facts, "dfa", n=4 if quick else 6, an=UN)
                     if c in pf_cases:
